@@ -454,6 +454,25 @@ def eval_hcases(ck, name, cases):
     return parse_report(out, H_LISTS), out
 
 
+def hdoc_to_coq(c):
+    fpid = {}
+
+    def fid(fp):
+        return fpid.setdefault(str(fp), len(fpid) + 1)
+
+    labels = {}
+    rows = []
+    for st, ob in zip(c["steps"], c["obs"]):
+        for s_ in st.get("streams") or []:
+            labels.setdefault(fid(s_["fp"]), s_.get("san") or [])
+        for cl in ob.get("calls") or []:
+            if cl["table"] == "time_series":
+                for r, d in zip(cl["rows"] or [], cl.get("docs") or []):
+                    rows.append("(%d, %s)" % (fid(r[1]), coq_bytes(unhex(d))))
+    return "{| hd_id := %d; hd_labels := %s; hd_rows := %s |}" % (
+        c["id"], coq_list(["(%d, %s)" % (k, coq_pair_list(v)) for k, v in sorted(labels.items())]), coq_list(rows))
+
+
 def show_hist(c):
     out = []
     for st, ob in zip(c["steps"], c["obs"]):
@@ -517,6 +536,25 @@ def run_hist(ck):
             return
         for key in H_LISTS:
             res[key] += r[key]
+    # the labels text of every series row sent in these histories decodes to the label set of the stream with its fingerprint
+    txt = ("From Coq Require Import List ZArith Bool String Uint63.\n"
+           "From Qryn Require Import model.Labels model.SeriesDoc.\n"
+           "Import ListNotations.\nOpen Scope Z_scope.\n"
+           "Definition cases : list hdoc := [\n  " + ";\n  ".join(hdoc_to_coq(c) for c in ok) + "].\n"
+           "Definition R := Eval vm_compute in hdreport cases.\nPrint R.\n")
+    rc, out = ck.coq_eval("C04_histdoc", txt)
+    rd = parse_report(out, ["V_rowdoc"]) if rc == 0 else None
+    if rd is None:
+        ck.obligation("series-row documents of the histories evaluated inside Coq", False, out[-1500:])
+        return
+    nrows = sum(len(cl.get("docs") or []) for c in ok for ob in c["obs"] for cl in ob.get("calls") or [] if cl["table"] == "time_series")
+    ck.obligation("spec: the labels text of each of the %d series rows sent in the histories is JSON that decodes to the label set of the stream with the row's fingerprint" % nrows,
+                  not rd["V_rowdoc"] and nrows > 0, "case ids: %s" % rd["V_rowdoc"][:10])
+    if rd["V_rowdoc"]:
+        c = min((byid[i] for i in rd["V_rowdoc"]), key=size)
+        ck.violation({"property": "C04", "part": "hist", "kind": "a series row carries a labels text that does not decode to the labels of the stream with its fingerprint",
+                      "case": c, "readable": show_hist(c), "explanation": "hd_bad (model/SeriesDoc.v)",
+                      "replay": "seriesid --mode hist --cases <file with this case>"})
     ck.obligation("correspondence: model SeriesIndex.run_obs = implementation (status, series rows sent, samples sent) on %d histories" % len(ok),
                   not res["M_hist"] and not panics, "mismatching case ids: %s" % res["M_hist"][:10])
     ck.obligation("spec: every acknowledged sample has a successfully inserted series row of its day and type, in every history (insert failures, retries, malformed bodies, overlapping pushes, resets)",
